@@ -115,6 +115,64 @@ def all_roles(spec):
   return r
 
 
+def _qattr(role):
+  return {"depthwise": "depthwise_quantizer",
+          "pointwise": "pointwise_quantizer"}.get(role, role + "_quantizer")
+
+
+def construct(ci, spec, quantized, pe):
+  """The layer object as its own __init__ leaves it (so that attributes the
+  constructor derives or caches are present), with the Keras base
+  constructor replaced by its documented effect (it stores its keyword
+  arguments) and get_quantizer() returning tagged quantizer stand-ins."""
+  def getq(pe_, a, k):
+    v = a[0] if a else k.get("quantizer")
+    if isinstance(v, str) and v.startswith("Q:"):
+      return qm(v[2:])
+    return v
+
+  def base_init(pe_, a, k):
+    me = pe_.external_super_self
+    for kk, vv in k.items():
+      me.attrs.setdefault(kk, vv)
+  ov = {"get_quantizer": getq,
+        "get_auto_range_constraint_initializer":
+            lambda pe_, a, k: (a[1], a[2])}
+  saved = (pe.module_overrides, getattr(pe, "ext_overrides", None))
+  pe.module_overrides = dict(pe.module_overrides)
+  for m in (ci.module.name, "qkeras.qlayers"):
+    d = dict(pe.module_overrides.get(m, {}))
+    d.update(ov)
+    pe.module_overrides[m] = d
+  pe.globals_cache = {} if hasattr(pe, "globals_cache") else None
+  eo = dict(saved[1] or {})
+  eo["<external-super>.__init__"] = base_init
+  pe.ext_overrides = eo
+  params = [p for p, _ in ci.init_params()[0]]
+  kw = {}
+  for p in params:
+    if p.endswith("_quantizer"):
+      role = p[:-len("_quantizer")]
+      kw[p] = ("Q:" + role) if role in quantized else None
+  if "activation" in params:
+    kw["activation"] = "Q:act"
+  if "recurrent_activation" in params:
+    kw["recurrent_activation"] = "Q:ract"
+  if "units" in params:
+    kw["units"] = 4
+  for g, v in spec["geom"].items():
+    if g in params and not g.startswith("_"):
+      kw[g] = v
+  if "filters" in params:
+    kw.setdefault("filters", 8)
+  if "kernel_size" in params:
+    kw.setdefault("kernel_size", (3, 3))
+  try:
+    return pe.call(pe.lookup_global(ci.name, ci.module), [], kw)
+  finally:
+    pe.ext_overrides = eo
+
+
 def make_layer(ci, spec, quantized, pe):
   """quantized: True (every quantizer set), False (none) or the set of
   roles whose quantizer is set."""
@@ -122,26 +180,32 @@ def make_layer(ci, spec, quantized, pe):
     quantized = all_roles(spec)
   elif quantized is False:
     quantized = set()
-  o = Obj(ci)
+  o = construct(ci, spec, quantized, pe)
   a = o.attrs
   for attr, role in spec["weights"].items():
     a[attr] = W(attr)
-    qattr = {"depthwise": "depthwise_quantizer",
-             "pointwise": "pointwise_quantizer"}.get(role,
-                                                     role + "_quantizer")
-    a[qattr] = ("quantized_bits(4)" if role in quantized else None)
-    a[qattr + "_internal"] = qm(role) if role in quantized else None
+    qattr = _qattr(role)
+    if role in quantized:
+      a[qattr] = "quantized_bits(4)"
+      if not isinstance(a.get(qattr + "_internal"), Mock):
+        a[qattr + "_internal"] = qm(role)
+    else:
+      a[qattr] = None
+      a[qattr + "_internal"] = None
   if spec.get("rnn"):
-    a["state_quantizer"] = "quantized_bits(4)" if "state" in quantized \
-        else None
-    a["state_quantizer_internal"] = qm("state") if "state" in quantized \
-        else None
+    if "state" in quantized:
+      a["state_quantizer"] = "quantized_bits(4)"
+      if not isinstance(a.get("state_quantizer_internal"), Mock):
+        a["state_quantizer_internal"] = qm("state")
+    else:
+      a["state_quantizer"] = None
+      a["state_quantizer_internal"] = None
     a["units"] = 4
     a["use_bias"] = True
     a["dropout"] = 0.0
     a["recurrent_dropout"] = 0.0
-    a["implementation"] = 1
-    a["reset_after"] = False
+    a.setdefault("implementation", 1)
+    a.setdefault("reset_after", False)
     a["recurrent_activation"] = qm("ract")
     a["get_dropout_mask_for_cell"] = lambda pe, ar, k: None
     a["get_recurrent_dropout_mask_for_cell"] = lambda pe, ar, k: None
@@ -153,13 +217,10 @@ def make_layer(ci, spec, quantized, pe):
   a["_jit_compiled_convolution_op"] = a["convolution_op"]
   a["compute_output_shape"] = lambda pe, ar, k: None
   a["_compute_causal_padding"] = lambda pe, ar, k: [[0, 0], [2, 0], [0, 0]]
-  order = []
-  for role in spec["order"]:
-    qattr = {"depthwise": "depthwise_quantizer",
-             "pointwise": "pointwise_quantizer"}.get(role,
-                                                     role + "_quantizer")
-    order.append(a.get(qattr + "_internal"))
-  a["quantizers"] = order
+  # the applied quantizers in the weight order of the spec
+  a["__applied__"] = [a.get(_qattr(r) + "_internal") if r != "state"
+                      else a.get("state_quantizer_internal")
+                      for r in spec["order"]]
   return o
 
 
@@ -361,7 +422,7 @@ def rule_layers(rep, repo, tier="quick"):
           try:
             lst = pe.call_func(Func(gq, gq_owner.module, [], "get_quantizers",
                                     o, gq_owner), [], {})
-            want = o.attrs["quantizers"]
+            want = o.attrs["__applied__"]
             same = isinstance(lst, list) and len(lst) == len(want) and all(
                 a is b for a, b in zip(lst, want))
             rep.check(same, "R5", unit, "get_quantizers!=applied",
@@ -438,8 +499,14 @@ def rule_dead_options(rep, repo):
 
 
 def rule_pooling(rep, repo):
+  """The pooling layers are constructed through their own __init__ (the
+  Keras base constructor is replaced by its documented effect: it stores
+  pool_size / strides / padding / keepdims and resolves data_format=None to
+  the global image data format), then call() is evaluated for both data
+  formats, explicit and resolved from the global setting."""
   from ..qir import Fwd, mk_app
   from ..nf import NF
+  qp = repo.module("qkeras.qpooling")
   for cname in ("QAveragePooling2D", "QGlobalAveragePooling2D"):
     ci = repo.classes.get("qkeras.qpooling." + cname)
     if ci is None:
@@ -447,40 +514,74 @@ def rule_pooling(rep, repo):
     unit = "%s::%s.call" % (ci.module.relpath, ci.name)
     rep.unit(unit)
     owner, fn = ci.find_method("call")
-    for quantized in (True, False):
-      pe = PE(repo)
-      pe.opaque_ext = True
-      o = Obj(ci)
-      o.attrs.update({
-          "average_quantizer": "quantized_bits(8)" if quantized else None,
-          "average_quantizer_internal": qm("average") if quantized else None,
-          "activation": qm("act"), "pool_size": (2, 3),
-          "data_format": "channels_last", "keepdims": False,
-          "compute_pooling_area": lambda pe, a, k: 6})
-      x = Tensor(("sym", "inputs"), (2, 8, 8, 4))
-      try:
-        out = pe.call_func(Func(fn, owner.module, [], "call", o, owner), [x],
-                           {})
-      except PyRaise as e:
-        rep.fail("R1", unit, "call-raises", "call() raises %s" % e)
-        continue
-      cfg = "%s(%s)" % (cname, "quantized" if quantized else "plain")
-      nf = Fwd()(out.term)
-      X = NF.sym("inputs")
-      if quantized and cname == "QGlobalAveragePooling2D":
-        inner = mk_app("reduce_sum", [X], ((1, 2), False)) * mk_app(
-            "Q_average", [NF.const(F(1, 6))])
-      elif quantized:
-        inner = mk_app("super.call", [X * 6]) * mk_app(
-            "Q_average", [NF.const(F(1, 6))])
-      else:
-        inner = mk_app("super.call", [X])
-      want = mk_app("Q_act", [inner])
-      rep.check(nf == want, "R1", unit, "pooling-structure",
-                "%s computes %s, expected sum (Keras pooling of x*area) "
-                "times the quantized reciprocal, then the activation: %s" %
-                (cfg, show(nf, 200), show(want, 200)),
-                loc=owner.module.loc(fn), instance=cfg)
+    for df_arg, global_df in (("channels_last", "channels_last"),
+                              ("channels_first", "channels_last"),
+                              (None, "channels_last"),
+                              (None, "channels_first")):
+      for quantized in (True, False):
+        cfg = "%s(data_format=%s,global=%s,%s)" % (
+            cname, df_arg, global_df, "quantized" if quantized else "plain")
+
+        def getq(pe, a, k):
+          v = a[0] if a else k.get("quantizer")
+          if v is None:
+            return None
+          return qm("average") if v == "QAVG" else qm("act")
+        pe = PE(repo, module_overrides={qp.name: {"get_quantizer": getq}})
+        pe.opaque_ext = True
+        rec = {}
+
+        def keras_base_init(pe, a, k, rec=rec, g=global_df):
+          # documented effect of the Keras pooling base constructor
+          rec.update(k)
+          me = pe.external_super_self
+          for kk, vv in k.items():
+            me.attrs[kk] = vv
+          me.attrs["data_format"] = k.get("data_format") or g
+          me.attrs.setdefault("keepdims", False)
+        pe.ext_overrides = {
+            "<external-super>.__init__": keras_base_init,
+            "K.image_data_format": lambda pe, a, k, g=global_df: g,
+            "tf.keras.backend.image_data_format":
+                lambda pe, a, k, g=global_df: g}
+        kw = {"data_format": df_arg, "activation": "QACT",
+              "average_quantizer": "QAVG" if quantized else None}
+        if cname == "QAveragePooling2D":
+          kw["pool_size"] = (2, 3)
+        try:
+          o = pe.call(pe.lookup_global(cname, qp), [], kw)
+        except PyRaise as e:
+          rep.fail("R1", unit, "constructor-raises", "%s: __init__ raises %s"
+                   % (cfg, e), instance=cfg)
+          continue
+        df = rec.get("data_format") or global_df
+        shape = (2, 8, 7, 4) if df == "channels_last" else (2, 4, 8, 7)
+        spatial = (1, 2) if df == "channels_last" else (2, 3)
+        x = Tensor(("sym", "inputs"), shape)
+        try:
+          out = pe.call_func(Func(fn, owner.module, [], "call", o, owner),
+                             [x], {})
+        except PyRaise as e:
+          rep.fail("R1", unit, "call-raises", "%s: call() raises %s" %
+                   (cfg, e), instance=cfg)
+          continue
+        nf = Fwd()(out.term)
+        X = NF.sym("inputs")
+        if quantized and cname == "QGlobalAveragePooling2D":
+          inner = mk_app("reduce_sum", [X], (spatial, False)) * mk_app(
+              "Q_average", [NF.const(F(1, 56))])
+        elif quantized:
+          inner = mk_app("super.call", [X * 6]) * mk_app(
+              "Q_average", [NF.const(F(1, 6))])
+        else:
+          inner = mk_app("super.call", [X])
+        want = mk_app("Q_act", [inner])
+        rep.check(nf == want, "R1", unit, "pooling-structure",
+                  "%s computes %s, expected the sum over the spatial axes "
+                  "%s (Keras pooling of x*area) times the quantized "
+                  "reciprocal of the area, then the activation: %s" %
+                  (cfg, show(nf, 200), spatial, show(want, 200)),
+                  loc=owner.module.loc(fn), instance=cfg)
 
 
 def run(rep, repo, tier):
